@@ -124,8 +124,32 @@ impl<S: SemLike> SemSut<S> {
 impl<S: SemLike> Drop for SemSut<S> {
     fn drop(&mut self) {
         self.futs.drop_live();
-        self.rels.clear();
-        unsafe { drop(Box::from_raw(self.raw)) };
+        // a broken library may panic in any destructor: one at a time, so that a second panic
+        // cannot meet the unwinding of the first
+        for (_, r) in self.rels.drain(..) {
+            let _ = lib(move || drop(r));
+        }
+        let raw = self.raw;
+        let _ = lib(move || unsafe { drop(Box::from_raw(raw)) });
+    }
+}
+
+/// Permit counts at and above INF are codes for the upper end of usize: INF + d stands for
+/// usize::MAX - d (TLC integers are 32 bit). Values the code reports are coded the same way.
+const INF: usize = 2_000_000_000;
+fn decode(n: usize) -> usize {
+    if n >= INF {
+        usize::MAX - (n - INF)
+    } else {
+        n
+    }
+}
+fn encode(x: u64) -> u64 {
+    let x = x as usize;
+    if x >= INF {
+        (INF + (usize::MAX - x).min(100_000_000)) as u64
+    } else {
+        x as u64
     }
 }
 
@@ -140,7 +164,7 @@ impl<S: SemLike> Sut for SemSut<S> {
                 if f == 0 || f > self.futs.k() || self.futs.is_live(f) {
                     return None;
                 }
-                match lib(|| s.acquire(n)) {
+                match lib(|| s.acquire(decode(n))) {
                     Ok(fut) => {
                         self.futs.put(f, fut);
                         Some(json!({"op": "create", "f": f, "n": n}))
@@ -154,7 +178,7 @@ impl<S: SemLike> Sut for SemSut<S> {
                 if (op == "poll") == term {
                     return None;
                 }
-                let n = S::node(self.futs.get(f)?).extra as usize;
+                let n = encode(S::node(self.futs.get(f)?).extra) as usize;
                 let v = variant_of(&e["w"]);
                 let waker = waker(0, f, v);
                 let mut cx = Context::from_waker(&waker);
@@ -186,7 +210,7 @@ impl<S: SemLike> Sut for SemSut<S> {
             }
             "try_acquire" => {
                 let n = slot_of(e, "n");
-                let res = match lib(|| s.try_acquire(n)) {
+                let res = match lib(|| s.try_acquire(decode(n))) {
                     Ok(Some(g)) => {
                         self.rels.push((n, g));
                         "some"
@@ -225,7 +249,7 @@ impl<S: SemLike> Sut for SemSut<S> {
                 }
             }
             "permits" => match lib(|| s.permits()) {
-                Ok(v) => Some(json!({"op": "permits", "res": "ok", "val": v})),
+                Ok(v) => Some(json!({"op": "permits", "res": "ok", "val": encode(v as u64)})),
                 Err(_) => Some(json!({"op": "permits", "res": "panic"})),
             },
             _ => None,
@@ -247,7 +271,7 @@ impl<S: SemLike> Sut for SemSut<S> {
             st[s - 1] = json!(ST.get(n.state as usize).copied().unwrap_or("?"));
             task[s - 1] = json!(task_name(n.waker, 0, s));
             term[s - 1] = json!(fut.is_terminated());
-            req[s - 1] = json!(n.extra);
+            req[s - 1] = json!(encode(n.extra));
         }
         let flag = |name: &str| snap.flags.iter().find(|(n, _)| *n == name).map_or(0, |(_, v)| *v);
         let qa = |name: &str| -> Vec<usize> {
@@ -257,7 +281,7 @@ impl<S: SemLike> Sut for SemSut<S> {
                 .map_or(vec![], |(_, v)| v.iter().map(|x| x.addr).collect())
         };
         let q = checked_queue(&qa("waiters"), &qa("waiters_rev"), &table);
-        let permits = flag("permits");
+        let permits = encode(flag("permits"));
         json!({
             "permits": permits,
             "st": st,
@@ -289,6 +313,18 @@ impl<S: SemLike> Sut for SemSut<S> {
 
     fn wake_inlock(&self, _e: &Value) -> bool {
         true
+    }
+
+    fn cleanup_ops(&self) -> Vec<Value> {
+        let mut v = Vec::new();
+        for f in self.futs.live_slots() {
+            v.push(json!({"op": "drop", "f": f}));
+        }
+        for (a, _) in &self.rels {
+            v.push(json!({"op": "drop_releaser", "a": a}));
+        }
+        v.push(json!({"op": "permits"}));
+        v
     }
 
     fn random_op(&self, rng: &mut Rng) -> Value {
